@@ -111,6 +111,14 @@ pub fn build_items(cases: &[crate::engine::Case], n: usize, rng: &mut Rng) -> Ve
     let mut items = vec![];
     let mut idx: Vec<usize> = (0..cases.len()).collect();
     rng.shuffle(&mut idx);
+    // documents with `@typstyle off` regions, comments and imports exercise the per-call attribute state:
+    // always have some of each among the items
+    let mut forced: Vec<usize> = vec![];
+    for pat in ["@typstyle off", "/*", "#import", "$"] {
+        forced.extend(idx.iter().copied().filter(|&i| cases[i].text.contains(pat) && cases[i].text.len() < 600).take(6));
+    }
+    forced.extend(idx.iter().copied());
+    let idx = forced;
     for &i in idx.iter() {
         if items.len() >= n {
             break;
@@ -296,7 +304,7 @@ pub fn run(items: &[Item], thread_counts: &[usize], rounds: usize, seed: u64, pr
 
     // (i) same item ×100 in one thread
     let mut log = vec![];
-    for i in 0..items.len().min(24) {
+    for i in 0..items.len().min(400) {
         for k in 0..100 {
             let got = call(&items, i, 0, k, &shared, &mut log);
             acc.evaluations += 1;
@@ -322,6 +330,16 @@ pub fn run(items: &[Item], thread_counts: &[usize], rounds: usize, seed: u64, pr
                 acc.held += 1;
                 acc.nontrivial.insert(util::hash64_parts(&[&items[i].text, &items[i].cfg.to_string()]));
             }
+        }
+    }
+    // (ii-b) a long-lived worker thread (language server): the whole item list, many rounds, one thread
+    {
+        let res = concurrent_history(&items, &reference, 1, 40, seed ^ 0x1ead, false);
+        acc.evaluations += res.events.len() as u64;
+        acc.count("long_lived_worker_calls", res.events.len() as u64);
+        acc.held += (res.events.len() - res.mismatches.len()) as u64;
+        for (i, _t, got) in res.mismatches.iter().take(10) {
+            push_mismatch(acc, &items, &reference, *i, "one long-lived worker thread, 40 rounds over all items", got);
         }
     }
     acc.count("sequential_calls", log.len() as u64);
